@@ -197,7 +197,9 @@ class FieldSpec:
         if self.rename is not None:
             in_names = (self.rename,)
         elif self.aliases is not None:
-            in_names = (name, *(alias for alias in self.aliases if alias != name))
+            # aliases are additional to the names the class-level renaming accepts
+            base = tuple(rename_field(name, style) for style in in_rename) if in_rename is not None else (name,)
+            in_names = (*base, *(alias for alias in self.aliases if alias not in base))
         elif self.in_names is not None:
             in_names = self.in_names
         else:
